@@ -192,6 +192,85 @@ class JsonVsTextTwoCats(Harness):
             yield 'json-info-notes==text', len(tin) == len(infos) and all(any(bool(a == b) for b in infos) for a in tin)
 
 
+def _stdout_text(sink, buf):
+    """everything the run printed, as one str (instrumented run: captured print calls; pristine run: redirected stdout)"""
+    text = buf.getvalue()
+    for a, k in sink:
+        piece = k.get('sep', ' ').join(x if isinstance(x, str) else zx.shims.concretize_str(x) if isinstance(x, zx.SStr) else str(x) for x in a)
+        text = text + piece + k.get('end', '\n')
+    return text
+
+
+class MainJsonStdout(Harness):
+    """real main() with -j / -jj against a scripted healthy server, under symbolic -v, -b and -l: the whole of stdout is one JSON document; the compact and
+    the indented document parse to the same value; the exit status does not depend on the presentation flags."""
+    prop, ob = PROP, 'O4'
+    width = 64
+
+    def __init__(self, arch):
+        self.arch = arch
+        self.name = 'mainjson-%s' % arch
+
+    def params(self):
+        return {'arch': self.arch}
+
+    def inputs(self):
+        return {'verbose': zx.fresh_bool('v'), 'batch': zx.fresh_bool('b'), 'level': zx.fresh_int('l', 0, 2)}
+
+    def one(self, M, inp, jcount):
+        import io, contextlib, sys, json as _json
+        from props.c18 import StubArgparse
+        from props.c09 import BANNER, kexinit_pkt
+        lists = {'weak': (['diffie-hellman-group1-sha1', 'curve25519-sha256'], ['ssh-dss', 'ssh-ed25519']), 'clean': (['curve25519-sha256'], ['ssh-ed25519']),
+                 'unknown': (['curve25519-sha256', 'zz-unknown-kex'], ['ssh-ed25519'])}[self.arch]
+        pk = kexinit_pkt(*lists)
+        net = AE.FakeNet([AE.Conn([BANNER, pk])] + [AE.Conn([BANNER, pk], 'close') for _ in range(6)], default_end='close')
+        lv = inp['level']
+        lv = lv if isinstance(lv, int) else zx.cur().concretize(lv.e)
+        vals = {'host': 'target', 'json': jcount, 'verbose': bool(inp['verbose']), 'batch': bool(inp['batch']), 'level': LEVELS[lv], 'skip_rate_test': True}
+        OL.fresh_tables(M)      # each run is a new process: the per-thread rating tables start from the master copy
+        sink = []
+        if zx.active():
+            zx.cur().stdout = sink
+        buf = io.StringIO()
+        old_argv = sys.argv
+        sys.argv = ['ssh-audit', 'target']
+        try:
+            with AE.patched(M.ssh_audit, argparse=StubArgparse(vals)), AE.patched(M.ssh_socket, socket=net), contextlib.redirect_stdout(buf):
+                r = guarded(M.ssh_audit.main)
+        finally:
+            sys.argv = old_argv
+        text = _stdout_text(sink, buf)
+        try:
+            doc = _json.loads(text)
+            ok = True
+        except ValueError:
+            doc, ok = None, False
+        return r, ok, doc, text
+
+    def run(self, M, inp):
+        r1, ok1, d1, t1 = self.one(M, inp, 1)
+        r2, ok2, d2, t2 = self.one(M, inp, 2)
+        if isinstance(r1, Exc) or isinstance(r2, Exc):
+            return {'exc': r1 if isinstance(r1, Exc) else r2}
+        return {'r1': r1, 'r2': r2, 'ok1': ok1, 'ok2': ok2, 'same': ok1 and ok2 and d1 == d2, 'head1': t1[:40], 'indented': '\n' in t2.strip(), 'compact': '\n' not in t1.strip()}
+
+    def check(self, inp, obs):
+        if 'exc' in obs:
+            yield 'no-exception', False
+            return
+        yield 'stdout-is-one-json-document(-j)', obs['ok1']
+        yield 'stdout-is-one-json-document(-jj)', obs['ok2']
+        if obs['ok1'] and obs['ok2']:
+            yield 'compact-and-indented-parse-to-the-same-value', obs['same']
+        yield 'same-status', obs['r1'] == obs['r2']
+
+    def classify(self, inp, obs, label):
+        if label.startswith('stdout-is-one-json-document') and isinstance(obs.get('head1'), str) and obs['head1'].startswith('Starting audit of'):
+            return 'verbose-status-line-precedes-the-json-document'
+        return label
+
+
 class BufferFilter(Harness):
     """OutputBuffer: an arbitrary sequence of <=4 print calls at symbolic levels under a symbolic minimum level and batch flag:
     exactly the calls at or above the level are kept, in order; head()/sep() vanish in batch mode."""
@@ -270,6 +349,8 @@ def tasks(tier):
     T.append(JsonVsText('enc', 1, 1, 1, True))
     for c1, c2 in ([('enc', 'mac'), ('kex', 'key')] if q else [('enc', 'mac'), ('mac', 'enc'), ('kex', 'key'), ('key', 'enc'), ('kex', 'mac')]):
         T.append(JsonVsTextTwoCats(c1, c2))
+    for arch in ('weak', 'clean', 'unknown'):
+        T.append(MainJsonStdout(arch))
     for n in ((1, 2, 3) if q else (1, 2, 3, 4)):
         T.append(BufferFilter(n))
     return T
@@ -284,6 +365,8 @@ def harness_by_name(name, params):
         return JsonVsText(p['cat'], p['nf'], p['nw'], p['ni'], p['indent'])
     if k == 'jsonvstext2':
         return JsonVsTextTwoCats(p['cat1'], p['cat2'])
+    if k == 'mainjson':
+        return MainJsonStdout(p['arch'])
     if k == 'bufferfilter':
         return BufferFilter(p['n'])
     raise KeyError(name)
